@@ -621,6 +621,16 @@ impl Visitor for UnusedVariableVisitor {
             self.visit_expr(expr);
         }
 
+        // The last expression is the value of the block. A `let`
+        // evaluates to Unit but its value might not, so removing the
+        // `let` would change what the block evaluates to. Offer to
+        // rename the variable instead.
+        if let Some(last_expr) = block.exprs.last() {
+            if let Expression_::Let(LetDestination::Symbol(symbol), _, _) = &last_expr.expr_ {
+                self.let_removal_positions.remove(&symbol.interned_id);
+            }
+        }
+
         self.pop_scope();
     }
 
